@@ -14,8 +14,17 @@
 import StVerif.Base
 import StVerif.Model.Search
 
+namespace StVerif.Search
+
+/-- `std::char_traits<T>::length(p)`: units before the first zero unit -/
+def strlen : List Nat → Nat
+  | [] => 0
+  | c :: rest => if c = 0 then 0 else strlen rest + 1
+
+end StVerif.Search
+
 namespace StVerif.Compare
-open StVerif.Search (CaseMode lower upper)
+open StVerif.Search (CaseMode lower upper strlen)
 
 /-- element type of an `ST::buffer<char_T>` -/
 inductive Elem where
@@ -48,8 +57,15 @@ def compareCi3 : List Nat → List Nat → Int
     if cl ≠ cr then cl - cr else compareCi3 as bs
   | _, _ => 0
 
-/-- `static_cast<int>(lsize - rsize)`: the `size_t` subtraction wraps mod 2^64, the conversion to
-    `int` keeps the low 32 bits as two's complement. -/
+/-- what `compare` returns when the common prefix is equal:
+    `(lsize < rsize) ? -1 : (lsize > rsize) ? 1 : 0` (since the `fix:` commit "compare returned the
+    size difference narrowed to int"; before it the code returned `sizeDiffNarrowed` below). -/
+def sizeOrder (lsize rsize : Nat) : Int :=
+  if lsize < rsize then -1 else if lsize > rsize then 1 else 0
+
+/-- the pinned tree's `static_cast<int>(lsize - rsize)`: the `size_t` subtraction wraps mod 2^64,
+    the conversion to `int` keeps the low 32 bits as two's complement.  No longer used by the model;
+    kept so that the defect that was repaired stays stated (Props/C06 `narrowed_difference_*`). -/
 def sizeDiffNarrowed (lsize rsize : Nat) : Int := toI32 (wrap64 ((lsize : Int) - (rsize : Int)))
 
 /-- `buffer<char_T>::compare(left, lsize, right, rsize)`.  `l`, `r` are what is readable at the two
@@ -58,13 +74,13 @@ def sizeDiffNarrowed (lsize rsize : Nat) : Int := toI32 (wrap64 ((lsize : Int) -
 def compareSized (e : Elem) (l : List Nat) (lsize : Nat) (r : List Nat) (rsize : Nat) : Int :=
   let cmplen := min lsize rsize
   let cmp := traitsCompare e (l.take cmplen) (r.take cmplen)
-  if cmp ≠ 0 then cmp else sizeDiffNarrowed lsize rsize
+  if cmp ≠ 0 then cmp else sizeOrder lsize rsize
 
 /-- `_ST_PRIVATE::compare_ci(left, lsize, right, rsize)` -/
 def compareCiSized (l : List Nat) (lsize : Nat) (r : List Nat) (rsize : Nat) : Int :=
   let cmplen := min lsize rsize
   let cmp := compareCi3 (l.take cmplen) (r.take cmplen)
-  if cmp ≠ 0 then cmp else sizeDiffNarrowed lsize rsize
+  if cmp ≠ 0 then cmp else sizeOrder lsize rsize
 
 /-- the 5-argument forms: both sizes clamped to `maxlen` first -/
 def compareSizedN (e : Elem) (l : List Nat) (lsize : Nat) (r : List Nat) (rsize : Nat) (maxlen : Nat) : Int :=
@@ -83,5 +99,76 @@ def compareModeN (cs : CaseMode) (l : List Nat) (lsize : Nat) (r : List Nat) (rs
   match cs with
   | .sensitive => compareSizedN .char l lsize r rsize maxlen
   | .insensitive => compareCiSizedN l lsize r rsize maxlen
+
+/-! ### public members: `ST::string` (include/st_string.h:1545-1699) and `ST::buffer<char_T>`
+     (include/st_charbuffer.h:229-281) -/
+
+/-- right-hand operand of the member overloads: another string / buffer, or a `const char_T*`
+    (`none` = `nullptr`; `some p` = the units at the pointer, followed by a terminating zero) -/
+inductive Rhs where
+  | str (b : List Nat)
+  | cstr (p : Option (List Nat))
+  deriving Repr, DecidableEq, Inhabited
+
+/-- pointer contents and `rsize` as the overload computes them: `str.c_str(), str.size()` or
+    `str ? str : "", str ? traits::length(str) : 0` -/
+def Rhs.data : Rhs → List Nat
+  | .str b => b
+  | .cstr none => []
+  | .cstr (some p) => p
+
+def Rhs.size : Rhs → Nat
+  | .str b => b.length
+  | .cstr none => 0
+  | .cstr (some p) => strlen p
+
+/-- `string::compare(rhs, cs)` -/
+def strCompare (cs : CaseMode) (a : List Nat) (r : Rhs) : Int := compareMode cs a a.length r.data r.size
+
+/-- `string::compare_n(rhs, count, cs)` -/
+def strCompareN (cs : CaseMode) (a : List Nat) (r : Rhs) (count : Nat) : Int :=
+  compareModeN cs a a.length r.data r.size count
+
+/-- `compare_i(rhs)` = `compare(rhs, case_insensitive)`, `compare_ni(rhs, n)` likewise -/
+def strCompareI (a : List Nat) (r : Rhs) : Int := strCompare .insensitive a r
+def strCompareNI (a : List Nat) (r : Rhs) (count : Nat) : Int := strCompareN .insensitive a r count
+
+/-- `operator<`, `operator==`, `operator!=` of `ST::string` (`<` only takes a string) -/
+def strLt (a b : List Nat) : Bool := decide (strCompare .sensitive a (.str b) < 0)
+def strEq (a : List Nat) (r : Rhs) : Bool := decide (strCompare .sensitive a r = 0)
+def strNe (a : List Nat) (r : Rhs) : Bool := decide (strCompare .sensitive a r ≠ 0)
+
+/-- `ST::less_i`, `ST::equal_i` -/
+def lessI (a b : List Nat) : Bool := decide (strCompareI a (.str b) < 0)
+def equalI (a b : List Nat) : Bool := decide (strCompareI a (.str b) = 0)
+
+/-- `buffer<char_T>::compare(rhs)`, `compare_n(rhs, count)`, operators -/
+def bufCompare (e : Elem) (a : List Nat) (r : Rhs) : Int := compareSized e a a.length r.data r.size
+def bufCompareN (e : Elem) (a : List Nat) (r : Rhs) (count : Nat) : Int := compareSizedN e a a.length r.data r.size count
+def bufLt (e : Elem) (a b : List Nat) : Bool := decide (bufCompare e a (.str b) < 0)
+def bufEq (e : Elem) (a b : List Nat) : Bool := decide (bufCompare e a (.str b) = 0)
+def bufNe (e : Elem) (a b : List Nat) : Bool := decide (bufCompare e a (.str b) ≠ 0)
+
+/-! ### hashes (include/st_string.h:2525-2557, constants st_string_priv.h:200-215) -/
+
+def fnvOffsetBasis : Nat := 0xcbf29ce484222325
+def fnvPrime : Nat := 0x00000100000001b3
+
+/-- `static_cast<size_t>(ch)` for a (signed) `char`: sign-extended to 64 bits -/
+def charToSize (b : Nat) : Nat := wrap64 (schar b)
+
+/-- `hash ^= static_cast<size_t>(ch); hash *= prime;` in 64-bit arithmetic -/
+def hashStep (h : Nat) (ch : Nat) : Nat := ((h ^^^ charToSize ch) * fnvPrime) % 2 ^ 64
+
+/-- `ST::hash` (also `std::hash<ST::string>`) -/
+def hash (s : List Nat) : Nat := s.foldl hashStep fnvOffsetBasis
+
+/-- `ST::hash_i` -/
+def hashI (s : List Nat) : Nat := s.foldl (fun h c => hashStep h (lower c)) fnvOffsetBasis
+
+/-! ### case maps (include/st_string.h:2356-2384): one `cl_fast_upper/lower` per byte into a buffer of the same size -/
+
+def toUpper (s : List Nat) : List Nat := s.map upper
+def toLower (s : List Nat) : List Nat := s.map lower
 
 end StVerif.Compare
